@@ -86,9 +86,13 @@ func (g *Gen) emit(op Op) string {
 		return ""
 	}
 	line := op.String()
-	o := g.s.Exec(ParseOp(line)) // always through the textual form: the file is the replay
+	// the op is on disk BEFORE it runs: if the implementation takes the whole process down (a fatal runtime error is
+	// not recoverable), the last line of the op file is the one that did it
 	fmt.Fprintln(g.ops, line)
+	g.ops.Flush()
+	o := g.s.Exec(ParseOp(line)) // always through the textual form: the file is the replay
 	fmt.Fprintln(g.obs, o)
+	g.obs.Flush()
 	g.nOps++
 	key := op.Kind
 	if op.Sub != "" {
